@@ -5,3 +5,4 @@ CONSTANTS
   Tier = "quick"
 INVARIANT LawCall
 INVARIANT LawSigPrecedence
+INVARIANT LawOverride
